@@ -362,6 +362,18 @@ theorem exec_via_congr {σ β ρ : Type} (m : Machine σ β ρ) (p q : List Stri
     (m.execVia p n₁ b).1.committed = (m.execVia q n₂ b).1.committed ∧ (m.execVia p n₁ b).2 = (m.execVia q n₂ b).2 :=
   exec_congr m n₁ n₂ b h
 
+/-- the result of a block does not depend on the node's local configuration (obligation of the implementation: no value of
+    AppOptions / viper / flags / server config may reach consensus code — site kind `node-local-config`, twins / replicas
+    constructed with different configurations) -/
+theorem step_config_irrelevant {σ β ρ : Type} (m : Machine σ β ρ) (c₁ c₂ : List (String × String)) (n : Node σ) (b : β) :
+    m.execWith c₁ n b = m.execWith c₂ n b := rfl
+
+/-- two nodes with equal committed state and different configurations agree -/
+theorem exec_with_congr {σ β ρ : Type} (m : Machine σ β ρ) (c₁ c₂ : List (String × String)) (n₁ n₂ : Node σ) (b : β)
+    (h : n₁.committed = n₂.committed) :
+    (m.execWith c₁ n₁ b).1.committed = (m.execWith c₂ n₂ b).1.committed ∧ (m.execWith c₁ n₁ b).2 = (m.execWith c₂ n₂ b).2 :=
+  exec_congr m n₁ n₂ b h
+
 /-- every replica operation preserves "the two nodes have the same committed state" and a block reports equal results -/
 theorem repStep_agree {σ β ρ : Type} (m : Machine σ β ρ) (p : Node σ × Node σ) (o : RepOp β)
     (h : p.1.committed = p.2.committed) :
